@@ -41,7 +41,8 @@ def equations(year):
         E("1040", "2a", "addinst", terms=[("1099-int", "box_8")], cite="2a. Tax-exempt interest (Form 1099-INT box 8)"),
         E("1040", "3a", "addinst", terms=[("1099-div", "box_1b")], cite="3a. Qualified dividends (Form 1099-DIV box 1b)"),
         E("1040", "7", "addinst", terms=[("1099-div", "box_2a")], cite="7. Capital gain distributions when Schedule D is not required (Form 1099-DIV box 2a)"),
-        E("1040", "25b", "addinst", terms=[("1099-r", "box_4"), ("1099-div", "box_4"), ("1099-int", "box_4")], cite="25b. Federal income tax withheld from Form(s) 1099 (box 4)"),
+        E("1040", "25b", "addinst", terms=[("1099-r", "box_4"), ("1099-div", "box_4"), ("1099-int", "box_4"), ("1099-g", "box_4")],
+          cite="25b. Federal income tax withheld from Form(s) 1099: box 4 of Forms 1099-R, 1099-DIV, 1099-INT and 1099-G (Form 1040 instructions, line 25b: dividends, interest, unemployment compensation ...)"),
         E("1040", "35a", "sub", ["36", "34"], cite="35a. Amount of line 34 you want refunded to you (line 34 minus line 36)"),
         E("8995", "6", "addinst", terms=[("1099-div", "box_5")], cite="Form 8995 line 6: qualified REIT dividends (section 199A dividends, Form 1099-DIV box 5)"),
         E("8995", "11", "subx", ["1040.12", "1040.11"] if year != 2021 else ["1040.12c", "1040.11"], cite="Form 8995 line 11: taxable income before the qualified business income deduction (Form 1040 line 11 minus line 12)"),
